@@ -163,3 +163,37 @@ Example C17_expand_nonvacuous :
   = Some (EBin Add (EBin Mul (ENeg (ELit 1)) (EBin Mul vm vm)) (EBin Mul (ELit 1) (EBin Mul vn vn))).
 Proof. exact expand_nonvacuous. Qed.
 Print Assumptions C17_expand_nonvacuous.
+
+(* ------------------------------------------------ type map and reserved-name renaming (C17/TypeMap.v) *)
+From PV Require Import C17.TypeMap C17.TypeMapProofs.
+
+(* every name occurring in the translation (any operand position, inside intrinsic / array arguments, nested)
+   is bound by the type map built from the expression *)
+Theorem C17_type_map_total : forall fixed e tm, build [e] = Some tm ->
+  forall x, In x (snames (tr fixed e)) -> has_fname tm x = true.
+Proof. exact type_map_total_. Qed.
+Print Assumptions C17_type_map_total.
+
+(* distinct Fortran names (reserved or not) get distinct names in the text and distinct sympy objects *)
+Theorem C17_type_map_injective : forall es tm, build es = Some tm ->
+  forall e1 e2, In e1 tm -> In e2 tm -> fname e1 <> fname e2 ->
+  uname e1 <> uname e2 /\ (ekind e1, sname e1) <> (ekind e2, sname e2).
+Proof. exact type_map_injective_. Qed.
+Print Assumptions C17_type_map_injective.
+
+(* tr_exact composed with the renaming: the sympy object built under the type map, evaluated under the renamed
+   valuation, has the Fortran value on the fragment *)
+Theorem C17_renaming_preserves_value : forall fixed e tm, in_frag fixed e = true -> build [e] = Some tm ->
+  forall E, oeq (seval (renv tm (qenv_of E)) (obj tm (tr fixed e))) (option_map inject_Z (feval E e)).
+Proof. exact renaming_preserves_value_. Qed.
+Print Assumptions C17_renaming_preserves_value.
+
+Example C17_type_map_nonvacuous :
+  build [tm_ex] = Some tm_ex_map /\ in_frag false tm_ex = true /\
+  build [ECall (FArr "while") [EVar "lambda_1"; EVar "lambda"]]
+  = Some [mk_entry "while" KFun "while_1"; mk_entry "lambda_1" KSym "lambda_1"; mk_entry "lambda" KSym "lambda_2"] /\
+  feval (mk_env 0 [("pi", 5); ("lambda", 2)]%Z) tm_ex = Some (2 + 2 * std_arr 0 "re" [2])%Z /\
+  oeqb (seval (renv tm_ex_map (qenv_of (mk_env 0 [("pi", 5); ("lambda", 2)]%Z))) (obj tm_ex_map (tr false tm_ex)))
+       (Some (inject_Z (2 + 2 * std_arr 0 "re" [2]))) = true.
+Proof. exact type_map_nonvacuous. Qed.
+Print Assumptions C17_type_map_nonvacuous.
